@@ -43,9 +43,10 @@ var errBoom = errors.New("boom")
 
 // chunkReader delivers data in small chunks, optionally failing with errBoom after all data.
 type chunkReader struct {
-	data  []byte
-	chunk int
-	fail  bool
+	data    []byte
+	chunk   int
+	fail    bool
+	withEnd bool // the last chunk comes together with the end (io.EOF, or the error): allowed by io.Reader
 }
 
 func (r *chunkReader) Read(p []byte) (int, error) {
@@ -64,13 +65,19 @@ func (r *chunkReader) Read(p []byte) (int, error) {
 	}
 	copy(p, r.data[:n])
 	r.data = r.data[n:]
+	if r.withEnd && len(r.data) == 0 {
+		if r.fail {
+			return n, errBoom
+		}
+		return n, io.EOF
+	}
 	return n, nil
 }
 
 // reader_sized*: readers of the standard library that know their total size (Size(), Len(), ReadAt, Seek) -- fresh, and after
 // the caller has consumed a prefix (a byte order mark, a header): the cursor ranges over exactly what the reader still delivers
 var ctors = []string{"bytes_spare", "bytes_tight", "string", "reader_bytes", "reader_plain", "reader_fail",
-	"reader_sized", "reader_sized_mid", "reader_bytesreader_mid", "reader_section_mid"}
+	"reader_sized", "reader_sized_mid", "reader_bytesreader_mid", "reader_section_mid", "reader_eofdata", "reader_eofdata_1", "reader_fail_withdata"}
 
 // inst is one cursor under test plus what the harness knows about the caller's memory.
 type inst struct {
@@ -120,6 +127,14 @@ func build(kind, ctor string, data []byte) *inst {
 		r = &chunkReader{data: append([]byte{}, data...), chunk: 2}
 	case "reader_fail":
 		r = &chunkReader{data: append([]byte{}, data...), chunk: 2, fail: true}
+		in.failed = true
+		in.data = nil
+	case "reader_eofdata":
+		r = &chunkReader{data: append([]byte{}, data...), chunk: 2, withEnd: true}
+	case "reader_eofdata_1":
+		r = &chunkReader{data: append([]byte{}, data...), chunk: 1 << 20, withEnd: true} // everything and io.EOF in one call
+	case "reader_fail_withdata":
+		r = &chunkReader{data: append([]byte{}, data...), chunk: 3, fail: true, withEnd: true}
 		in.failed = true
 		in.data = nil
 	case "reader_sized":
@@ -368,7 +383,7 @@ func Replay(args []string) {
 			data[i] = byte(v)
 		}
 		for _, ctor := range ctors {
-			if (ctor == "reader_fail") != c.Failed {
+			if (ctor == "reader_fail" || ctor == "reader_fail_withdata") != c.Failed {
 				continue
 			}
 			in := build(c.Kind, ctor, data)
